@@ -231,7 +231,7 @@ CLAIMED['C05'] = (
     'Trusted / not covered: Jinja semantics (which templates are auto-escaped, filters applied as functions), the classification of NUMERIC / FIXED '
     'expressions in contracts/xml_scan.py (read from the code, not proved), the formatting filters\' alphabets (ISO text: C19). NOT '
     'covered: the structural MPD rules (required attributes, lexical validity, unique ids, non-empty AdaptationSets, URL template '
-    'identifiers). Known finding: a custom-attribute element name is rendered verbatim. The template table is a syntactic obligation.',
+    'identifiers). The one element-name interpolation (a PlayReady custom attribute\'s tag) is accepted because custom attributes have no request or storage path (a lemma re-derived from the source). The template table is a syntactic obligation.',
     'contract-based deductive verification of the escaping filter + source-derived template lemmas')
 
 CLAIMED['C04'] = (
